@@ -13,6 +13,7 @@ import (
 	"go/token"
 	"go/types"
 	"strings"
+	"sync"
 
 	"golang.org/x/tools/go/ssa"
 )
@@ -23,6 +24,7 @@ type coreModel struct {
 	topInfo                                *FuncInfo
 	curStmtIdx                             int
 	canon                                  map[*ssa.Function]bool
+	canonOnce                              sync.Once
 }
 
 // inBlockStmtEval: the statement evaluator the block evaluator calls.
@@ -68,9 +70,11 @@ func (w *World) coreModel() *coreModel {
 // the user-function call. Everything else in the root package that the
 // evaluator calls statically is a helper and is walked in line.
 func (m *coreModel) canonicalSet() map[*ssa.Function]bool {
-	if m.canon != nil {
-		return m.canon
-	}
+	m.canonOnce.Do(m.buildCanon)
+	return m.canon
+}
+
+func (m *coreModel) buildCanon() {
 	m.canon = map[*ssa.Function]bool{}
 	for _, f := range []*ssa.Function{m.top, m.sink, m.block, m.stmt, m.ret, m.let, m.expr} {
 		if f != nil {
@@ -94,7 +98,6 @@ func (m *coreModel) canonicalSet() map[*ssa.Function]bool {
 	if u := m.w.userFunctionEval(); u != nil {
 		m.canon[m.w.SSAFunc(u)] = true
 	}
-	return m.canon
 }
 
 // inline: helpers of the evaluator (root package, no receiver or the evaluator as receiver) that are not canonical.
